@@ -3,8 +3,8 @@
 package main
 
 import (
-	"encoding/binary"
 	"bufio"
+	"encoding/binary"
 	"fmt"
 	"log"
 	"os"
@@ -414,6 +414,61 @@ func (h *harness) genCase(r *rng, name, stream string, nops int) *Case {
 		c.Ops = append(c.Ops, Op{Kind: "items"}, Op{Kind: "dump"}, Op{Kind: "reopen"}, Op{Kind: "items"})
 		return c
 	}
+	if h.prop == "C11" && stream == "ops" && r.chance(25) {
+		// a scan paused inside one very long chain (> 4 overflow buckets) while the table grows: the
+		// chain's bucket is split (chain rewritten, its overflow buckets freed) and other full chains
+		// take overflow buckets from the free list; keys untouched during the scan must still be returned
+		h.stat("gen.scanlongchain")
+		c.Cfg.MaxSeg = 65536
+		chainA := keyPool(r, c.Cfg.HashSeed, 130+r.intn(100), 1)
+		lowA := murmur32(chainA[0], c.Cfg.HashSeed) & 7
+		c.Pool = append([][]byte{}, chainA...)
+		var chains [][][]byte
+		for len(chains) < 8 {
+			b := keyPool(r, c.Cfg.HashSeed, 64, 1)
+			if murmur32(b[0], c.Cfg.HashSeed)&7 != lowA {
+				chains = append(chains, b)
+				c.Pool = append(c.Pool, b...)
+			}
+		}
+		var spread [][]byte
+		for _, k := range keyPool(r, c.Cfg.HashSeed, 1200, 0) {
+			if murmur32(k, c.Cfg.HashSeed)&7 != lowA {
+				spread = append(spread, k)
+			}
+		}
+		c.Pool = append(c.Pool, spread...)
+		for i, k := range chainA {
+			c.Ops = append(c.Ops, Op{Kind: "put", K: k, V: patternBytes(r.intn(3), byte(i))})
+		}
+		for _, b := range chains {
+			for i := 0; i < 31; i++ {
+				c.Ops = append(c.Ops, Op{Kind: "put", K: b[i], V: patternBytes(r.intn(3), 2)})
+			}
+		}
+		pre := r.intn(200)
+		for i := 0; i < pre; i++ {
+			c.Ops = append(c.Ops, Op{Kind: "put", K: spread[i], V: patternBytes(r.intn(3), 1)})
+		}
+		c.Ops = append(c.Ops, Op{Kind: "dump"})
+		o := Op{Kind: "scan"}
+		at := onChainKey
+		if r.chance(20) {
+			at = 1 + r.intn(len(chainA)+pre)
+		}
+		si := pre
+		for j, n := 0, 50+r.intn(650); j < n && si < len(spread); j++ {
+			o.Sub = append(o.Sub, SubOp{At: at, Kind: "put", K: spread[si], V: patternBytes(r.intn(3), 3)})
+			si++
+		}
+		for i := 31; i < 33+r.intn(31); i++ {
+			for _, b := range chains {
+				o.Sub = append(o.Sub, SubOp{At: at, Kind: "put", K: b[i], V: patternBytes(r.intn(3), 4)})
+			}
+		}
+		c.Ops = append(c.Ops, o, Op{Kind: "dump"}, Op{Kind: "items"})
+		return c
+	}
 	if h.prop == "C02" && r.chance(50) {
 		// one long chain whose bucket is split (overflow buckets freed), then many short sessions that
 		// delete a key elsewhere and add one key to the chain: the key count stays the same while
@@ -656,7 +711,11 @@ func (h *harness) genCase(r *rng, name, stream string, nops int) *Case {
 				sort.SliceStable(o.Sub, func(a, b int) bool { return o.Sub[a].At < o.Sub[b].At })
 				c.Ops = append(c.Ops, o)
 			case h.prop == "C13" || (stream != "ploss" && r.chance(30)):
-				c.Ops = append(c.Ops, Op{Kind: "failopen"})
+				if r.chance(50) {
+					c.Ops = append(c.Ops, Op{Kind: "failclose"})
+				} else {
+					c.Ops = append(c.Ops, Op{Kind: "failopen"})
+				}
 			default:
 				c.Ops = append(c.Ops, Op{Kind: "dump"})
 			}
@@ -1148,8 +1207,9 @@ func (s *session) scan(o Op) {
 	it := s.db.Items()
 	sub := o.Sub
 	n := 0
+	var last []byte
 	for {
-		for len(sub) > 0 && sub[0].At <= n {
+		for len(sub) > 0 && (sub[0].At <= n || (sub[0].At == onChainKey && last != nil && s.inFirstChain(last))) {
 			if sub[0].Kind == "compact" {
 				// a whole compaction between two Next calls (segments the scan has queued items of may go away)
 				s.compact(Op{Kind: "compact"})
@@ -1169,6 +1229,7 @@ func (s *session) scan(o Op) {
 			break
 		}
 		h.emit("next %s %s", hx(k), hx(v))
+		last = k
 		n++
 		if n > 100000 {
 			break
@@ -1182,6 +1243,17 @@ func (s *session) scan(o Op) {
 		done = 1
 	}
 	h.emit("scanend n=%d donesticky=%d", n, done)
+}
+
+// onChainKey as SubOp.At: the sub-operation fires as soon as the scan has returned a key of the
+// case's first chain (the keys whose hash agrees with the first pool key's in the low 3 bits).
+const onChainKey = 1 << 30
+
+func (s *session) inFirstChain(k []byte) bool {
+	if len(s.c.Pool) == 0 {
+		return false
+	}
+	return murmur32(k, s.c.Cfg.HashSeed)&7 == murmur32(s.c.Pool[0], s.c.Cfg.HashSeed)&7
 }
 
 // backup runs Backup with writer operations placed at its yield points and opens the result.
@@ -1244,6 +1316,36 @@ func (s *session) failOpen() {
 	h.emit("failedopen %s", errStr(err))
 	h.stat("failopen.failed")
 	s.sim.Kill() // the failed process goes away too
+	if s.open("recover") {
+		h.emit("state %s", observe(s.db, s.c.Pool))
+		s.images("stable")
+	}
+}
+
+// failClose: one file-system call inside Close fails. A Close that returned an error did not
+// complete: the lock file must still be there and the next Open must recover.
+func (s *session) failClose() {
+	h := s.h
+	h.emit("state %s", observe(s.db, s.c.Pool))
+	s.sim.ResetFailBudget(s.r.intn(40))
+	err := s.db.Close()
+	s.sim.ResetFailBudget(-1)
+	if err == nil {
+		// the budget outlived the Close: a clean restart
+		h.emit("close ok")
+		h.emit("syncpoint")
+		s.images("stable")
+		s.open("clean")
+		return
+	}
+	h.stat("failclose.failed")
+	lock := 0
+	if _, ok := s.sim.Snapshot().File(dbDir + "/lock"); ok {
+		lock = 1
+	}
+	h.emit("failedclose %s lock=%d", errStr(err), lock)
+	s.sim.Kill()
+	h.emit("kill")
 	if s.open("recover") {
 		h.emit("state %s", observe(s.db, s.c.Pool))
 		s.images("stable")
@@ -1379,6 +1481,9 @@ func (h *harness) runCase(c *Case, stream string, r *rng) {
 			sinceCk = 1 << 30
 		case "failopen":
 			s.failOpen()
+			sinceCk = 1 << 30
+		case "failclose":
+			s.failClose()
 			sinceCk = 1 << 30
 		case "crashtorn", "crashtornhdr":
 			s.crashTorn(o, o.Kind == "crashtornhdr")
